@@ -76,17 +76,60 @@ def check(ctx):
     for k in ("Fetch", "Reread", "Write", "NewRet", "DeallocInv", "Flush"):
         if conc[k] == 0:
             raise Inconclusive("vacuous: no %s events in the concurrent windows" % k)
+    clock = clock_replacer(ctx, thorough)
     vlib.write_evidence(ctx, "model_checking", dict(
         states=ctx.states, transitions=ctx.transitions, traces_validated_against_impl=ctx.traces,
         samples=ctx.samples, exhaustive=True,
         constants="MC: 1 and 2 frames, 3 page ids, 3 versions, 2 pins, reuse list <= 2 (thorough: 3 frames to depth 11)",
         graph_states=len(nodes), graph_labelled_edges=total, graph_labels_performed_on_impl=covered,
         walk_events=dict(c), random_events=dict(tot), events_validated=ctx.events,
-        steps_not_allowed_by_mechanism_spec=diverged),
-        ["BufferPool.tla transcribes buffer_pool_manager.go with the replacement policy abstracted to 'any replacer member'",
+        steps_not_allowed_by_mechanism_spec=diverged, clock_replacer=clock),
+        ["ClockReplacer.tla transcribes clock_replacer.go / circular_list.go (the policy BufferPool.tla abstracts); a victim that is a candidate but not the spec's choice is counted as a policy deviation, not as a violation",
+         "BufferPool.tla transcribes buffer_pool_manager.go with the replacement policy abstracted to 'any replacer member'",
          "users respect the pool's contract (a new page is written before it is unpinned; a deallocated page is not fetched again)",
          "projection through GetPages() and the guarded VerifSnapshot accessor; page content abstracted to a version stamp",
          "single-threaded driver: the pool's own mutex discipline is not exercised here"])
+
+
+def clock_replacer(ctx, thorough):
+    """spec/ClockReplacer: the replacement policy as coded (the part BufferPool.tla abstracts to 'any member of the
+    replacer').  MC: a pinned frame is never a victim, no frame twice, the hand always denotes a list node, Victim
+    answers whenever there is a candidate; then every edge of the 4-frame state graph is performed on a real
+    buffer.ClockReplacer, plus random sequences with 4 and 16 frames; answers and sizes are judged by TLC."""
+    fam = "ClockReplacer"
+    vlib.model_check(ctx, fam, "MC", "MC_4.cfg", workers=4)
+    vlib.model_check(ctx, fam, "MC", "MC_6.cfg", workers=8)
+    dot = os.path.join(ctx.work, "clock.dot")
+    vlib.model_check(ctx, fam, "MC", "MC_walk.cfg", workers=1, extra=["-dump", "dot,actionlabels", dot], name="graph-clock")
+    inits, nodes, edges = vlib.parse_dot(dot)
+    os.remove(dot)
+    walks, total, covered = vlib.edge_cover(inits, edges, rng=random.Random(ctx.seed), max_walk=80)
+    ops = [[[a] + args for a, args in (vlib.parse_label(l) for l in w)] for w in walks]
+    wf = os.path.join(ctx.work, "clock-walks.json")
+    json.dump(ops, open(wf, "w"))
+    out = dict(graph_states=len(nodes), graph_edges=total, graph_edges_walked_on_impl=covered, policy_deviations=0)
+    if covered < total:
+        raise Inconclusive("clock walker covered %d of %d edges" % (covered, total))
+    runs = [("clock-walk.ndjson", ["clock", "walk", wf, None, 4], "Trace_4.cfg", "graph walk on a real ClockReplacer (4 frames)"),
+            ("clock-r4.ndjson", ["clock", "random", None, 800 if thorough else 150, 200, 4], "Trace_4.cfg", "random calls (4 frames)"),
+            ("clock-r16.ndjson", ["clock", "random", None, 800 if thorough else 150, 400, 16], "Trace_16.cfg", "random calls (16 frames)")]
+    ev = _collections.Counter()
+    for fn, args, cfg, what in runs:
+        t = os.path.join(ctx.work, fn)
+        vlib.vdrive(ctx, [t if a is None else a for a in args])
+        res = vlib.validate(ctx, fam, "ClockReplacerTrace", cfg, t, name="val-" + fn, timeout=1800)
+        judge(ctx, res, t, what)
+        out["policy_deviations"] += ((res.get("extra") or {}).get("extra") or {}).get("policy_deviations", 0)
+        for e in vlib.read_ndjson(t):
+            ev[e["ev"] + ("" if e["ev"] != "Victim" else (":frame" if e["res"].startswith("f") else ":" + e["res"]))] += 1
+    for k in ("Unpin", "Pin", "Victim:frame", "Victim:panic"):
+        if ev[k] == 0:
+            raise Inconclusive("vacuous: no %s events on the clock replacer" % k)
+    out["events"] = dict(ev)
+    return out
+
+
+import collections as _collections
 
 
 def collections_counter():
